@@ -175,6 +175,8 @@ UNITS["visible"] = {
         {"kind": "index_impl_check", "file": "layer", "type": "LayersData", "body": "{&self.layers[index as usize]}"},
         {"kind": "struct", "file": "file", "name": "AsepriteFile", "keep": ["layers"]},
         {"kind": "struct", "file": "layer", "name": "Layer", "keep": ["file", "layer_id"]},
+        {"kind": "fn", "file": "layer", "name": "is_background", "impl_of": "LayerData", "ret": "r",
+         "ensures": "        r == ((self.flags.bits & 8u32) == 8u32),"},
         {"kind": "fn", "file": "layer", "name": "is_visible", "impl_of": "Layer", "impl_header": "<'a> Layer<'a>", "ret": "r",
          "requires": ("        parents_ok(self.file.layers.layers@, self.file.layers.parents@),\n"
                       "        (self.layer_id as int) < self.file.layers.layers.len(),"),
@@ -1155,5 +1157,52 @@ pub open spec fn ratio_ok(pw: u8, ph: u8) -> bool { pw == 0 || ph == 0 || (pw ==
                      "           &&& d.len() >= 128 && !depth_ok(le_u16(d, 12)) ==> r is Err }),"),
          "loops": {1: ("        invariant\n"
                        "            parse_info.nframes() == num_frames, reader.data() == input.data(),")}},
+    ],
+}
+
+# ------------------------------------------------------------------------------------------------
+# pixel conversion rules (C06) and the palette completeness check at validation (C11)
+# ------------------------------------------------------------------------------------------------
+UNITS["pixels"] = {
+    "prelude_sections": ["errors", "rgba_only", "intmap"],
+    "items": [
+        {"kind": "struct", "file": "palette", "name": "ColorPaletteEntry", "keep": None},
+        {"kind": "struct", "file": "palette", "name": "ColorPalette", "keep": None},
+        {"kind": "fn", "file": "palette", "name": "color", "impl_of": "ColorPalette", "ret": "r",
+         "ensures": "        (r is Some) == self.entries@.contains_key(index), r is Some ==> *(r->0) == self.entries@[index],"},
+        {"kind": "fn", "file": "palette", "name": "red", "impl_of": "ColorPaletteEntry", "ret": "r", "ensures": "        r == self.rgba8@[0],"},
+        {"kind": "fn", "file": "palette", "name": "green", "impl_of": "ColorPaletteEntry", "ret": "r", "ensures": "        r == self.rgba8@[1],"},
+        {"kind": "fn", "file": "palette", "name": "blue", "impl_of": "ColorPaletteEntry", "ret": "r", "ensures": "        r == self.rgba8@[2],"},
+        {"kind": "fn", "file": "palette", "name": "alpha", "impl_of": "ColorPaletteEntry", "ret": "r", "ensures": "        r == self.rgba8@[3],"},
+        {"kind": "struct", "file": "pixel", "name": "Grayscale", "keep": None, "attrs": "#[derive(Clone, Copy)]\n"},
+        {"kind": "fn", "file": "pixel", "name": "into_rgba", "impl_of": "Grayscale", "ret": "r",
+         "ensures": "        r.0@ == seq![self.value, self.value, self.value, self.alpha],"},
+        {"kind": "struct", "file": "pixel", "name": "Indexed", "keep": None, "attrs": "#[derive(Clone, Copy)]\n"},
+        {"kind": "fn", "file": "pixel", "name": "as_rgba", "impl_of": "Indexed", "ret": "r",
+         # closure contract spliced onto the real closure (annotation only, like a loop invariant)
+         "body_rewrites": [(".map(|c| {", ".map(|c: &ColorPaletteEntry| -> (out: Rgba<u8>)\n            ensures out.0@ == seq![c.rgba8@[0], c.rgba8@[1], c.rgba8@[2], if transparent_color_index == index && !layer_is_background { 0u8 } else { c.rgba8@[3] }]\n        {")],
+         "ensures": ("        (r is Some) == palette.entries@.contains_key(self.0 as u32),\n"
+                     "        r is Some ==> ({ let e = palette.entries@[self.0 as u32];\n"
+                     "            (r->0).0@ == seq![e.rgba8@[0], e.rgba8@[1], e.rgba8@[2], if transparent_color_index == self.0 && !layer_is_background { 0u8 } else { e.rgba8@[3] }] }),")},
+        {"kind": "enum", "file": "file", "name": "PixelFormat", "attrs": "#[derive(Clone, Copy, PartialEq, Eq)]\n"},
+        {"kind": "enum", "file": "pixel", "name": "RawPixels"},
+        {"kind": "enum", "file": "pixel", "name": "Pixels"},
+        {"kind": "fn", "file": "palette", "name": "validate_indexed_pixels", "impl_of": "ColorPalette", "ret": "r", "rules": ["R1", "R6", "R11"],
+         "body_rewrites": [("for pixel in indexed_pixels {", "for pixel in it: indexed_pixels {")],
+         "loops": {1: ("            invariant\n"
+                       "                forall|i: int| 0 <= i < it.index@ ==> self.entries@.contains_key(#[trigger] indexed_pixels@[i] as u32),")},
+         "ensures": "        r is Ok <==> forall|i: int| 0 <= i < indexed_pixels@.len() ==> self.entries@.contains_key(#[trigger] indexed_pixels@[i] as u32),"},
+        {"kind": "fn", "file": "pixel", "name": "validate", "key": "RawPixels::validate", "impl_of": "RawPixels", "ret": "r", "rules": ["R1", "R6", "R11"],
+         "ensures": ("        match self {\n"
+                     "            RawPixels::Rgba(data) => r is Ok && r->Ok_0 is Rgba && r->Ok_0->Rgba_0@ == data@,\n"
+                     "            RawPixels::Grayscale(data) => r is Ok && r->Ok_0 is Grayscale && r->Ok_0->Grayscale_0@ == data@,\n"
+                     "            RawPixels::Indexed(data) => {\n"
+                     "                // C11: an indexed sprite with pixels needs a palette that contains EVERY pixel index\n"
+                     "                &&& r is Ok <==> (palette is Some && pixel_format is Indexed\n"
+                     "                        && forall|i: int| 0 <= i < data@.len() ==> (*palette->0).entries@.contains_key(#[trigger] data@[i] as u32))\n"
+                     "                &&& r is Ok ==> r->Ok_0 is Indexed && r->Ok_0->Indexed_data@ == data@ && r->Ok_0->Indexed_layer_is_background == layer_is_background\n"
+                     "                        && r->Ok_0->Indexed_transparent_color_index == pixel_format->Indexed_transparent_color_index\n"
+                     "            },\n"
+                     "        },")},
     ],
 }
